@@ -234,7 +234,7 @@ pub struct SignSys {
     pub oracle: Oracle,
 }
 
-#[derive(Clone, PartialEq, Eq, Hash)]
+#[derive(Clone, PartialEq, Eq, Hash, Debug)]
 pub struct SignState {
     pub real: VirtualSign<'static>,
     pub model: RefSign,
@@ -461,7 +461,7 @@ pub struct BusSys {
     pub oracle: BusOracle,
 }
 
-#[derive(Clone, PartialEq, Eq, Hash)]
+#[derive(Clone, PartialEq, Eq, Hash, Debug)]
 pub struct BusState {
     pub bus: VirtualSignBus<'static>,
     /// per sign: the real sign run in isolation, fed only the messages that concern it
